@@ -60,6 +60,8 @@ w("|---|---|---|---|---|")
 n = caught = missed_first = 0
 for d in sorted(glob.glob(V + "/seeded/C??-?")):
     m = json.load(open(d + "/meta.json"))
+    if (m.get("kind") or "").startswith("benign"):
+        continue
     n += 1
     rules = sorted((m.get("check") or {}).get("rules_fired") or {})
     if m.get("detected"):
@@ -76,6 +78,28 @@ for d in sorted(glob.glob(V + "/seeded/C??-?")):
 w("")
 w("%d seeded changes; %d are detected by the committed checks on today's tree, %d of them only after the check was strengthened (history in each `meta.json`); "
   "seeds that no longer apply because a `fix:` commit rewrote the code they change are marked *superseded* with the mutant that replaces them.\n" % (n, caught, missed_first))
+
+ben = [json.load(open(d + "/meta.json")) for d in sorted(glob.glob(V + "/seeded/C??-?"))]
+ben = [m for m in ben if (m.get("kind") or "").startswith("benign")]
+if ben:
+    w("### 6.3b Seeded behaviour-preserving refactorings (blind sub-agents): the checks must stay silent\n")
+    w("Produced like the breaking changes (fresh sub-agent, property text and scratch worktree only), but required to leave behaviour unchanged: helper extraction / inlining, "
+      "guard clauses, loop forms, renames, reordered independent statements, lock-wrapper kinds. The property's quick check runs on a scratch copy with the refactoring applied; "
+      "exit 0 is the required verdict, exit 1 would be a false alarm, exit 2 an explicit refusal (analysis cannot follow the new shape — not a pass, not a violation).\n")
+    w("| Seed | Refactoring (one line) | Verdict today | First run of the check |")
+    w("|---|---|---|---|")
+    nb = silent = refused = alarm = 0
+    for m in ben:
+        nb += 1
+        rc = (m.get("check") or {}).get("quick_rc")
+        verdict = {0: "silent (exit 0)", 1: "FALSE ALARM", 2: "refused (exit 2)"}.get(rc, str(rc))
+        silent += rc == 0
+        refused += rc == 2
+        alarm += rc == 1
+        summ = (m.get("summary") or "").split(". ")[0][:170]
+        w("| %s | %s | %s | %s |" % (m["seed"], summ.replace("|", "/"), verdict, (m.get("history") or "").replace("|", "/")[:260]))
+    w("")
+    w("%d refactorings: %d silent, %d refused, %d false alarms on today's checks.\n" % (nb, silent, refused, alarm))
 
 w("### 6.4 Self-validation mutants\n")
 w("| Property | Mutants expected to fire | Benign variants (expected silent, or — for renames of anchored names — an explicit refusal, never a violation) |")
